@@ -4,6 +4,9 @@ import GqlVerif.Misc.CacheControl
 import GqlVerif.Gql.Lex
 import GqlVerif.Gql.Coerce
 import GqlVerif.Plan.Sched
+import GqlVerif.Plan.Render
+import GqlVerif.Props.C02
+import GqlVerif.Ties.C02
 import GqlVerif.Props.C05
 import GqlVerif.Props.C06
 import GqlVerif.Props.C08
